@@ -192,6 +192,12 @@ func (r *Repo) Observe(extraNames []string) (*State, error) {
 	if err != nil {
 		return nil, err
 	}
-	s.Refs, s.Logs = a.Refs, a.Logs
+	s.Refs = a.Refs
+	s.Logs = map[string][][2]int{}
+	for n, l := range a.Logs {
+		for _, e := range l {
+			s.Logs[n] = append(s.Logs[n], [2]int{e[0], e[1]}) // (the kind of entry is the refs engine's business)
+		}
+	}
 	return s, nil
 }
